@@ -118,6 +118,20 @@ def _eval_pair(case):
     for f in FIELDS:
         if fd(a)[f] != A[f] or fd(b)[f] != B[f]:
             bad('operands-unmodified', f, 'operand changed by an operator')
+    # ... also when the sum or difference is spelled as an augmented assignment on a second name for an operand
+    # (a running total seeded from an existing value): same result, and the value the name came from stays what it was
+    acc = a
+    acc += b
+    run = a
+    run -= b
+    both = a
+    both += b
+    both -= b
+    for f in FIELDS:
+        if fd(acc)[f] != A[f] + B[f] or fd(run)[f] != A[f] - B[f] or fd(both)[f] != A[f]:
+            bad('augmented-fieldwise', f, f'acc=a; acc+=b gives {fd(acc)[f]}; run=a; run-=b gives {fd(run)[f]}; +=b then -=b gives {fd(both)[f]}')
+        if fd(a)[f] != A[f] or fd(b)[f] != B[f]:
+            bad('operands-unmodified/augmented', f, f'x = a; x += b / x -= b changed an operand: a.{f}={fd(a)[f]} b.{f}={fd(b)[f]}')
     # comparisons agree with subtraction; negative fields by name
     neg_ba = sorted(f for f in FIELDS if B[f] - A[f] < 0)
     neg_ab = sorted(f for f in FIELDS if A[f] - B[f] < 0)
